@@ -141,11 +141,11 @@ Example extent_loops_correct_nonvacuous :
   let start := lower_start ex_s 1 in let w := nth 1 ex_mins fzero in
   (0 < val ex_s)%R /\ ffinite (fdiv ex_top ex_s) = true /\
   inD ex_top start /\ idx ex_s 3 start <= 1 /\ inD ex_top w /\ idx ex_s 3 w = 1 /\
-  exists r, lower_loops 64 next_float_up next_float_down (idx ex_s 3) 1 start = Some r /\ feqb_bits r w = true.
+  match lower_loops 64 next_float_up next_float_down (idx ex_s 3) 1 start with
+  | Some r => feqb_bits r w | None => false end = true.
 Proof.
   cbv zeta. split; [apply fgt_zero; by_eval|]. split; [by_eval|].
-  split; [ex_inD|]. split; [vm_compute; discriminate|]. split; [ex_inD|]. split; [by_eval|].
-  eexists. split; [vm_compute; reflexivity | by_eval].
+  split; [ex_inD|]. split; [vm_compute; discriminate|]. split; [ex_inD|]. split; by_eval.
 Qed.
 
 (** The recorded extents of one direction partition the positions of the box.
@@ -172,14 +172,9 @@ Print Assumptions grid_partition.
 
 Example grid_partition_nonvacuous :
   pre_ok ex_L 3 ex_mins = true /\
-  forall i, 0 <= i < 3 ->
-    cell_min 64 ex_L 3 i = Some (nth (Z.to_nat i) ex_mins fzero) /\
-    exists m, cell_max 64 ex_L 3 i = Some m.
-Proof.
-  split; [by_eval|]. intros i Hi.
-  assert (H : i = 0 \/ i = 1 \/ i = 2) by lia.
-  destruct H as [-> | [-> | ->]]; (split; [by_eval | eexists; vm_compute; reflexivity]).
-Qed.
+  check_extents ex_L 3 0 [0; 0x3FD5555555555555; 0x3FE5555555555555]
+                         [0x3FD5555555555554; 0x3FE5555555555554; 0x3FEFFFFFFFFFFFFF] = true.
+Proof. split; by_eval. Qed.
 
 (* ------------------------------------------------------------------------------------------- *)
 (** ** 4. index relations: a torus (any dimension, unequal numbers of cells per side) *)
